@@ -142,7 +142,9 @@ def verify_one(job):
         return {'ident': contract.ident, 'props': contract.props, 'paths': res.paths, 'outcomes': res.outcomes,
                 'error': res.error, 'error_kind': res.error_kind, 'sha': res.sha, 'time': round(res.time, 3),
                 'obligations': obs, 'inlined': res.inlined, 'sample': sample,
-                'lemmas_used': sorted(V.reg.lemma_used), 'feas_unknown': res.feas_unknown}
+                'lemmas_used': sorted(V.reg.lemma_used), 'feas_unknown': res.feas_unknown,
+                'assumes': [t for t, _e in contract.assumes], 'bounded': contract.bounded,
+                'known': [k for k, _r in contract.known]}
     except Exception:
         return {'ident': str(key), 'props': [], 'paths': 0, 'outcomes': {}, 'error': traceback.format_exc()[-3000:],
                 'error_kind': 'crash', 'sha': None, 'time': 0, 'obligations': [], 'inlined': [], 'sample': None,
@@ -281,7 +283,7 @@ def lemma_closure(V, contracts, extra=()):
     import ast
     names = set(V.reg.lemmas)
     used = set()
-    work = [n for n in extra if n in names]
+    work = [n for n in extra if n in names] + [n for n in names if n.startswith('fact_')]
     for c in contracts:
         for n in ast.walk(c.node):
             if isinstance(n, ast.Name) and n.id in names:
@@ -448,6 +450,27 @@ def report(prop, tier, repo, seed, t0, V, results, native, extra, cfg):
     wall = time.time() - t0
     level = cfg.get('level', 'proof')
     assumptions = list(cfg.get('assumptions', [])) + COMMON_ASSUMPTIONS
+    seen_as = set()
+    for r in results:
+        for t in r.get('assumes', []):
+            if t not in seen_as:
+                seen_as.add(t)
+                assumptions.append('assumes() clause: ' + t)
+        if r.get('bounded'):
+            assumptions.append('bounded contract %s: %s' % (r['ident'], r['bounded']))
+    rels = {r['ident'].split('::')[0] for r in results}
+    abstract = sorted(c.ident for c in V.reg.contracts.values() if c.abstract and
+                      (c.relpath in rels or c.relpath == 'asn1tools/codecs/__init__.py'))
+    if abstract:
+        assumptions.append('abstract contracts (assumed at call sites; every override under contract refines them, overrides '
+                           'without a contract are assumed to): ' + ', '.join(abstract))
+    if V.reg.axioms:
+        assumptions.append('axioms (assumed builtin contracts, cross-checked natively): ' + ', '.join(sorted(V.reg.axioms)))
+    facts = sorted(n[:-7] for n in V.reg.spec_functions if n.endswith('__facts'))
+    proved_f = [f for f in facts if ('fact_' + f) in V.reg.lemmas or f in ('be_val',)]
+    assumptions.append('side facts of recursive spec functions: proved as lemmas in this run (fact_<f>, be_val_nonneg) for %s; '
+                       'assumed (uninterpreted bit operations / builtins, cross-checked natively) for %s' % (
+                           ', '.join(proved_f), ', '.join(f for f in facts if f not in proved_f)))
     for ident, e in native_errors[:5]:
         assumptions.append('native cross-check of %s had an internal error: %s' % (ident, str(e)[:200]))
     ev = {
